@@ -12,6 +12,7 @@ use nom::{
     Parser,
 };
 
+use super::common::keyword_pair;
 use super::{
     common::{identifier, skip_ws, skip_ws_and_comments, value_reference},
     error::ParserResult,
@@ -142,8 +143,8 @@ fn import(input: Input<'_>) -> ParserResult<'_, Import> {
             skip_ws_and_comments(pair(
                 global_module_reference,
                 opt(into_inner(skip_ws_and_comments(alt((
-                    tag(WITH_SUCCESSORS),
-                    tag(WITH_DESCENDANTS),
+                    keyword_pair(WITH_SUCCESSORS),
+                    keyword_pair(WITH_DESCENDANTS),
                 ))))),
             )),
         ),
@@ -169,7 +170,7 @@ fn environments(
         skip_ws_and_comments(map(
             opt(terminated(
                 into_inner(alt((tag(AUTOMATIC), tag(IMPLICIT), tag(EXPLICIT)))),
-                skip_ws(tag(TAGS)),
+                skip_ws_and_comments(tag(TAGS)),
             )),
             |m| match m {
                 Some(AUTOMATIC) => TaggingEnvironment::Automatic,
@@ -177,7 +178,7 @@ fn environments(
                 _ => TaggingEnvironment::Implicit,
             },
         )),
-        skip_ws_and_comments(map(opt(tag(EXTENSIBILITY_IMPLIED)), |m| {
+        skip_ws_and_comments(map(opt(keyword_pair(EXTENSIBILITY_IMPLIED)), |m| {
             if m.is_some() {
                 ExtensibilityEnvironment::Implied
             } else {
